@@ -23,6 +23,7 @@ from ..core import AnalysisError
 from ..index import get_index
 from .c06 import CULTURES, DT, PyPattern, Wiring, _callee_name, _is_name, class_consts
 from .c08 import MiniEval, Undetermined
+from .c08 import _Return as _ReturnSignal
 
 LEVEL = 'other'
 DESIGN_REF = 'DESIGN.md#c10'
@@ -133,9 +134,15 @@ def _inline(expr, defs, depth=0):
     return T().visit(copy.deepcopy(expr))
 
 
-def _norm_text(expr, consts):
-    """unparse with Constants.X replaced by their values and get_group(m, X) / m.group(X) unified"""
+def _norm_text(expr, consts, rename=None):
+    """unparse with Constants.X replaced by their values, get_group(m, X) / m.group(X) unified and the locals in
+    `rename` given their canonical names"""
     class T(ast.NodeTransformer):
+        def visit_Name(self, n):
+            if rename and n.id in rename:
+                return ast.Name(id=rename[n.id], ctx=n.ctx)
+            return n
+
         def visit_Attribute(self, n):
             self.generic_visit(n)
             if isinstance(n.value, ast.Name) and n.value.id == 'Constants' and n.attr in consts:
@@ -196,9 +203,13 @@ def assembly_copies(cls, consts):
               and n.targets[0].attr == 'past_value']
         if len(fv) != 1 or len(pv) != 1:
             raise AnalysisError('%s.%s: value assignments not recognised' % (cls.name, name))
+        fvals = [p for p in timex_as[0].value.values if isinstance(p, ast.FormattedValue)]
+        ren = {}
+        if len(fvals) >= 2 and isinstance(fvals[-2].value, ast.Name) and fvals[-2].value.id not in keep:
+            ren[fvals[-2].value.id] = 'num'          # the number local, whatever it is called
         form = {
-            'timex': _norm_text(_inline(timex_as[0].value, keep), consts),
-            'value': _norm_text(_inline(fv[0].value, keep), consts),
+            'timex': _norm_text(_inline(timex_as[0].value, keep), consts, ren),
+            'value': _norm_text(_inline(fv[0].value, keep), consts, ren),
             'past': _norm_text(pv[0].value, consts),
         }
         # the guard `if <spelling> not in self.config.unit_map: return`
@@ -225,6 +236,88 @@ def assembly_copies(cls, consts):
         form['source'] = src
         out.append((name, form, timex_as[0].lineno))
     return out
+
+
+def number_source(fn, num_name):
+    """where the number of the TIMEX comes from: 'parser' (number parser on the text before the unit: the plain
+    "N <unit>" form), 'regex-group' (glued number+unit pattern), 'none' (constant / no number in the form)"""
+    locals_ = {}
+    for n in ast.walk(fn):
+        if isinstance(n, ast.Assign) and len(n.targets) == 1 and isinstance(n.targets[0], ast.Name):
+            locals_.setdefault(n.targets[0].id, []).append(n.value)
+    first = None
+    for st in fn.body:
+        if isinstance(st, ast.Assign) and len(st.targets) == 1 and _is_name(st.targets[0], num_name):
+            first = st
+            break
+    if first is None:
+        return 'none', None
+    names = {x.id for x in ast.walk(first.value) if isinstance(x, ast.Name)}
+    for nm in names:
+        for v in locals_.get(nm, []):
+            if isinstance(v, ast.Call) and _callee_name(v) == 'parse' and 'number_parser' in ast.unparse(v.func):
+                return 'parser', first
+    for c in ast.walk(first.value):
+        if isinstance(c, ast.Call) and _callee_name(c) in ('group', 'get_group') and c.args \
+                and ast.unparse(c.args[-1]).endswith(('Constants.NUM', "'num'")):
+            return 'regex-group', first
+    return 'none', first
+
+
+def range_guard_cases(idx, cls, fn, num_name, sp_name, first_assign, consts):
+    """interpret the statements between the first assignment of the number and the TIMEX assembly for
+    N in {1, 1000, 1001, 5000} x every unit letter -> {letter: [N that make the method return early]}"""
+    body = fn.body
+    start = body.index(first_assign) + 1
+    end = None
+    for i, st in enumerate(body):
+        if isinstance(st, ast.Assign) and isinstance(st.targets[0], ast.Attribute) and st.targets[0].attr == 'timex':
+            end = i
+    if end is None or end < start:
+        raise AnalysisError('%s.%s: TIMEX assembly is not a top-level statement after the number' % (cls.name, fn.name))
+    aborted = {}
+    for L in SEC:
+        aborted[L] = []
+        for N in (1, 1000, 1001, 5000):
+            def res(node, L=L):
+                if isinstance(node, ast.Attribute):
+                    if isinstance(node.value, ast.Name) and node.value.id == 'Constants' and node.attr in consts:
+                        return consts[node.attr]
+                    txt = ast.unparse(node)
+                    if txt.endswith('config.unit_map'):
+                        return {'<spelling>': L}
+                    if txt.endswith('config.unit_value_map'):
+                        return {'<spelling>': SEC[L]}
+                raise Undetermined('attribute %s' % ast.unparse(node)[:40])
+            ev = MiniEval(idx, cls, res)
+            env = {num_name: float(N), sp_name: '<spelling>', 'result': '<unresolved result>'}
+            for st in body[start:end]:
+                try:
+                    ev.block([st], env)
+                except _ReturnSignal:
+                    aborted[L].append(N)
+                    break
+                except Undetermined as e:
+                    if any(isinstance(x, ast.Return) for x in ast.walk(st)):
+                        raise AnalysisError('%s.%s: abort condition cannot be interpreted (%s): %s'
+                                            % (cls.name, fn.name, e, ast.unparse(st)[:80]))
+                    continue
+    return aborted
+
+
+_RANGE_CONTROL = '''
+class P:
+    def parse_number_space_unit(self, source):
+        result = R()
+        pr = self.config.number_parser.parse(er)
+        source_unit = RegExpUtility.get_group(match, Constants.UNIT)
+        num = float(pr.value) + 0
+        unit = self.config.unit_map[source_unit]
+        if num > 1000 and unit in [Constants.UNIT_Y, Constants.UNIT_MON, Constants.UNIT_W]:
+            return result
+        result.timex = f'P{num}{unit[0]}'
+        return result
+'''
 
 
 def reference_form(sp):
@@ -282,6 +375,8 @@ def run(chk):
     chk.rule('C10.seconds', 'seconds value equals the canonical length of the unit letter for every captured spelling', floor=120, control=True)
     chk.rule('C10.letter', 'TIMEX designator per unit letter; less-than-day set is exactly H, M, S', floor=7, control=True)
     chk.rule('C10.assembly', 'copies of the TIMEX/seconds assembly have the reference normal form and agree', floor=4, control=True)
+    chk.rule('C10.range-guard', 'the plain "N <unit>" parse path has no early return that depends on the magnitude of N in 1..5000',
+             floor=7, control=True)
     chk.rule('C10.timespan', 'luis_time_span / period unit count equal end - start; type->suffix table', floor=8, control=True)
     chk.assume('a culture is served by the unique DurationParserConfiguration subclass of its package')
 
@@ -478,6 +573,49 @@ def run_base(chk, idx, consts):
     ctl = _FakeCls(ast.parse(_ASSEMBLY_CONTROL).body[0])
     cc = assembly_copies(ctl, consts)
     chk.control('C10.assembly', bool(cc) and cc[0][1]['value'] != reference_form(cc[0][1]['spelling'])['value'])
+
+    # ---- C10.range-guard
+    plain = 0
+    for name, form, ln in copies:
+        fn = bd.methods[name]
+        timex_as = [n for n in ast.walk(fn) if isinstance(n, ast.Assign) and isinstance(n.targets[0], ast.Attribute)
+                    and n.targets[0].attr == 'timex' and isinstance(n.value, ast.JoinedStr)][0]
+        fvs = [p for p in timex_as.value.values if isinstance(p, ast.FormattedValue)]
+        num_name = fvs[-2].value.id if len(fvs) >= 2 and isinstance(fvs[-2].value, ast.Name) else None
+        sp = form['spelling']
+        cons = 'BaseDurationParser.%s' % name
+        if num_name is None or sp is None:
+            raise AnalysisError('%s: number / spelling locals of the TIMEX assembly not identified' % cons)
+        src, first = number_source(fn, num_name)
+        if src == 'none':
+            chk.exempt('C10.range-guard', bd.mod.path, cons, 'the form carries no parsed number (a/an, half, few, all): N does not range over 1..5000',
+                       'number source: constant', ln)
+            continue
+        ab = range_guard_cases(idx, bd, fn, num_name, sp, first, consts)
+        if src == 'parser':
+            plain += 1
+        for L in SEC:
+            detail = '%s: early return for N in %s' % (L, ab[L] or '{}')
+            if not ab[L]:
+                chk.ok('C10.range-guard', bd.mod.path, '%s[%r]' % (cons, L), detail, ln)
+            elif src == 'regex-group':
+                chk.exempt('C10.range-guard', bd.mod.path, '%s[%r]' % (cons, L),
+                           'glued number+unit form (number taken from the pattern\'s `num` group): the guard filters year-like tokens such as '
+                           '"2019y"; the blank-separated "N <unit>" form is served by the number-parser path', detail, ln)
+            else:
+                chk.bad('C10.range-guard', bd.mod.path, '%s[%r]' % (cons, L), detail,
+                        '%s serves the plain "N <unit>" form (number from the number parser) but returns an unresolved result for '
+                        'N in %s with unit %s: "%d %s" is extracted and then left without TIMEX/value; C10 quantifies N over 1..5000'
+                        % (cons, ab[L], L, ab[L][0], {'Y': 'years', 'MON': 'months', 'W': 'weeks', 'D': 'days', 'H': 'hours',
+                                                      'M': 'minutes', 'S': 'seconds'}[L]), ln)
+    if plain < 1:
+        raise AnalysisError('BaseDurationParser: no assembly takes its number from the number parser (plain "N <unit>" path not found)')
+    ctl = _FakeCls(ast.parse(_RANGE_CONTROL).body[0])
+    cfn = ctl.methods['parse_number_space_unit']
+    csrc, cfirst = number_source(cfn, 'num')
+    ctl.mod = bd.mod
+    cab = range_guard_cases(idx, bd, cfn, 'num', 'source_unit', cfirst, consts)
+    chk.control('C10.range-guard', csrc == 'parser' and cab['W'] == [1001, 5000] and cab['D'] == [])
 
     # ---- C10.timespan
     fu = idx.cls(DT + 'utilities.DateTimeFormatUtil')
